@@ -2,6 +2,7 @@ import Balm.Impl.Control
 import Balm.Impl.Strict
 import Balm.Impl.Solver
 import Balm.Impl.Asp
+import Balm.DepthAlgo
 /-!
 # `balmdriver` – line protocol between the Python harness and the Lean model
 
@@ -270,6 +271,18 @@ def handle (S : Session) (toks : List String) : Session × String :=
             if h : v < n then pure ({ v := ⟨v, h⟩, up := d == "up", c := c } : Trans n) else none)
         | _ => none) with
     | some v, some tl => if h : v < n then (S, verdict (faithfulVarB N tl ⟨v, h⟩)) else bad
+    | _, _ => bad
+  | "RELAXSEQ" :: k :: es => match k.toNat?, es.mapM (fun (t : String) => match t.splitOn ">" with
+        | [u, v] => (do let u ← u.toNat?; let v ← v.toNat?; pure (u, v) : Option (Nat × Nat))
+        | _ => none) with
+    | some k, some es =>
+      -- the model of `_ensure_edge`/`_update_node_depth`: one `updateDepth` per inserted edge
+      let run := es.foldl (fun (acc : List (Nat × Nat) × (Nat → Nat) × List String) e =>
+          let E := if acc.1.contains e then acc.1 else e :: acc.1
+          let r := Balm.Depth.updateDepth E acc.2.1 e.1 e.2
+          (E, r.1, acc.2.2 ++ [String.intercalate "," ((List.range k).map fun i => toString (r.1 i)) ++ (if r.2 then ":done" else ":fuel")]))
+        ([], (fun _ => 0), [])
+      (S, String.intercalate " | " run.2.2)
     | _, _ => bad
   | "ADOPT" :: rest => match parseDump n rest with
     | some d => ({ S with diag := d.toDiag }, "OK")
